@@ -50,6 +50,12 @@ def gen_cfg(sw: Stream, ra: Stream, methods=('pit', 'mps', 'sn'), weights=(4, 4,
         cfg['cost'] = sw.choice(['single:params', 'single:ops', 'dict:params+ops'])
     if sw.chance(0.15):
         cfg['seed_in_eval'] = True
+    if method in ('pit', 'mps') and sw.chance(0.15):
+        # one searchable layer is excluded from the search by name (stays a fixed layer)
+        cand = [n for n, d in cfg['spec']['mods'].items()
+                if d['t'].startswith('conv') and not n.startswith('dw')]
+        if cand:
+            ctor['exclude_names'] = [sw.choice(cand)]
     cfg['ctor'] = ctor
     return cfg
 
